@@ -120,6 +120,11 @@ pub trait Property: Sync {
     fn workers(&self) -> usize {
         16
     }
+    /// Generator features outside this property's domain (restrictions stated by the property's
+    /// quantifier, not findings). Always off.
+    fn domain_off(&self) -> Vec<&'static str> {
+        vec![]
+    }
 }
 
 // ---------------------------------------------------------------------------------------------
@@ -272,8 +277,8 @@ pub struct KnownFinding {
     pub properties: Vec<String>,
     /// "known" or "fixed"
     pub status: String,
-    /// exact signature; a trailing '*' makes it a prefix match
-    pub signature: String,
+    /// signature patterns ('*' matches any run of characters); the replay must fail with one of them
+    pub signatures: Vec<String>,
     pub what: String,
     /// replay file per property (relative to /verif)
     #[serde(default)]
@@ -283,6 +288,10 @@ pub struct KnownFinding {
     pub excludes: Vec<String>,
     #[serde(default)]
     pub commit: Option<String>,
+    /// properties (ids) for which the signatures are tolerated in the strict search as well
+    /// (byte-level / hostile domains where the trigger cannot be excluded by construction)
+    #[serde(default)]
+    pub tolerate_in_strict: Vec<String>,
 }
 
 pub fn load_known() -> Vec<KnownFinding> {
@@ -294,10 +303,33 @@ pub fn load_known() -> Vec<KnownFinding> {
 }
 
 pub fn sig_matches(pattern: &str, sig: &str) -> bool {
-    if let Some(prefix) = pattern.strip_suffix('*') {
-        sig.starts_with(prefix)
-    } else {
-        pattern == sig
+    // glob with '*' only
+    let parts: Vec<&str> = pattern.split('*').collect();
+    if parts.len() == 1 {
+        return pattern == sig;
+    }
+    let mut rest = sig;
+    for (i, part) in parts.iter().enumerate() {
+        if i == 0 {
+            if !rest.starts_with(part) {
+                return false;
+            }
+            rest = &rest[part.len()..];
+        } else if i == parts.len() - 1 {
+            return rest.ends_with(part);
+        } else {
+            match rest.find(part) {
+                Some(p) => rest = &rest[p + part.len()..],
+                None => return false,
+            }
+        }
+    }
+    true
+}
+
+impl KnownFinding {
+    pub fn matches(&self, sig: &str) -> bool {
+        self.signatures.iter().any(|p| sig_matches(p, sig))
     }
 }
 
@@ -625,8 +657,11 @@ pub fn supervise<P: Property>(p: &P, opts: &RunOpts) -> i32 {
         .into_iter()
         .filter(|k| k.properties.iter().any(|q| q == id))
         .collect();
-    let mut tolerated: Vec<String> = vec![];
+    let mut active: Vec<KnownFinding> = vec![];
     let mut features_strict = Features::default();
+    for f in p.domain_off() {
+        features_strict.off.insert(f.to_string());
+    }
     if let Ok(off) = std::env::var("VERIF_FEATURES_OFF") {
         for f in off.split(',').filter(|f| !f.is_empty()) {
             features_strict.off.insert(f.to_string());
@@ -641,24 +676,24 @@ pub fn supervise<P: Property>(p: &P, opts: &RunOpts) -> i32 {
         };
         let (reproduces, got_sig, got_detail) = match &outcome {
             Some(Isolated::Verdict(Verdict::Fail { sig, detail })) => {
-                (sig_matches(&k.signature, sig), Some(sig.clone()), detail.clone())
+                (k.matches(sig), Some(sig.clone()), detail.clone())
             }
             Some(Isolated::Crashed { status, stderr_tail }) => {
                 let s = crash_signature(stderr_tail, status);
-                (sig_matches(&k.signature, &s), Some(s), stderr_tail.clone())
+                (k.matches(&s), Some(s), stderr_tail.clone())
             }
             Some(Isolated::TimedOut) => {
                 let s = "hang|watchdog".to_string();
-                (sig_matches(&k.signature, &s), Some(s), String::new())
+                (k.matches(&s), Some(s), String::new())
             }
             _ => (false, None, String::new()),
         };
         if k.status == "known" {
             if reproduces {
-                let line = format!("KNOWN-FINDING: property={} {} [{}] {}", id, k.id, k.signature, k.what);
+                let line = format!("KNOWN-FINDING: property={} {} {}", id, k.id, k.what);
                 println!("{}", line);
                 sup.known_lines.push(line);
-                tolerated.push(k.signature.clone());
+                active.push(k.clone());
                 for f in &k.excludes {
                     features_strict.off.insert(f.clone());
                 }
@@ -710,13 +745,9 @@ pub fn supervise<P: Property>(p: &P, opts: &RunOpts) -> i32 {
                 *agg.discard_reasons.entry(r).or_insert(0) += 1;
             }
             Verdict::Fail { sig, detail } => {
-                if let Some(pat) = tolerated.iter().find(|pat| sig_matches(pat, &sig)) {
-                    *agg.excluded_known.entry(pat.clone()).or_insert(0) += 1;
-                } else {
-                    let cv = serde_json::to_value(&case).unwrap();
-                    let path = write_replay(id, &cv, &sig, &detail);
-                    sup.violations.push((sig, path, detail));
-                }
+                let cv = serde_json::to_value(&case).unwrap();
+                let path = write_replay(id, &cv, &sig, &detail);
+                sup.violations.push((sig, path, detail));
             }
         }
     }
@@ -724,16 +755,41 @@ pub fn supervise<P: Property>(p: &P, opts: &RunOpts) -> i32 {
     // 3. workers
     let total = p.cases(opts.tier);
     let nworkers = p.workers().max(1) as u64;
-    // a quarter of the workers explore the full (known-finding) domain when exclusions are active
-    let known_domain_workers = if features_strict.off.is_empty() || std::env::var("VERIF_SURVEY").is_ok() || std::env::var("VERIF_STRICT_ONLY").is_ok() { 0 } else { (nworkers / 4).max(1) };
+    // up to a quarter of the workers explore one known-finding domain each (that finding's
+    // generator features switched back on, its signatures tolerated there and only there);
+    // all other workers run the strict domain, where every failure is a violation
+    let kd_findings: Vec<&KnownFinding> = active.iter().filter(|k| !k.excludes.is_empty()).collect();
+    let known_domain_workers = if kd_findings.is_empty() || std::env::var("VERIF_SURVEY").is_ok() || std::env::var("VERIF_STRICT_ONLY").is_ok() {
+        0
+    } else {
+        (nworkers / 4).max(1).min(kd_findings.len() as u64)
+    };
+    // crash signatures (abort/hang) are attributed by the supervisor: tolerate those of active findings
+    let tolerated: Vec<String> = active
+        .iter()
+        .flat_map(|k| k.signatures.iter().cloned())
+        .filter(|s| s.starts_with("abort|") || s.starts_with("hang|"))
+        .collect();
+    let strict_tolerated: Vec<String> = active
+        .iter()
+        .filter(|k| k.tolerate_in_strict.iter().any(|q| q == id))
+        .flat_map(|k| k.signatures.iter().cloned())
+        .collect();
     let per = (total + nworkers - 1) / nworkers;
     let exe = std::env::current_exe().expect("current_exe");
     let mut children = vec![];
     for i in 0..nworkers {
-        let feats = if i < known_domain_workers {
-            Features::all_on()
+        let (feats, tol) = if i < known_domain_workers {
+            let k = kd_findings[((i + opts.seed) % kd_findings.len() as u64) as usize];
+            let mut f = features_strict.clone();
+            for e in &k.excludes {
+                f.off.remove(e);
+            }
+            let mut t = k.signatures.clone();
+            t.extend(strict_tolerated.iter().cloned());
+            (f, t)
         } else {
-            features_strict.clone()
+            (features_strict.clone(), strict_tolerated.clone())
         };
         let cfg = WorkerCfg {
             id: id.to_string(),
@@ -742,7 +798,7 @@ pub fn supervise<P: Property>(p: &P, opts: &RunOpts) -> i32 {
             cases: per,
             tier: opts.tier,
             features: feats,
-            tolerated: tolerated.clone(),
+            tolerated: tol,
             journal: wd.join(format!("w{}.current", i)).to_string_lossy().to_string(),
             result: wd.join(format!("w{}.result.json", i)).to_string_lossy().to_string(),
             survey: std::env::var("VERIF_SURVEY").is_ok(),
